@@ -8,6 +8,7 @@ import H264.DecodeNal
 import H264.Properties.C09
 import H264.Overflow
 import H264.History
+import H264.Alloc
 /-! # C03 — No input can panic, overflow, hang or over-allocate any parsing entry point
 
 What the model can carry, and what it cannot:
@@ -22,9 +23,12 @@ What the model can carry, and what it cannot:
 * **integer overflow**: the arithmetic the parsers perform on parsed values is modelled on ℕ/ℤ together with the
   guards the Rust uses (`checked_*`, range checks before casts); the theorems below show the guarded expressions stay
   inside the machine range, so wrapping and checked builds agree on the model.
-* **time / allocation** of the real allocator and clock are runtime behaviour: the model bounds the *number of bits
-  each loop iteration consumes* (termination measure); real allocation and inner-reader call counts are *measured* on
-  the implementation by the harness (see DESIGN.md, C03) — this part of the claim is labelled partial. -/
+* **allocation**: the *size ledger* at the end of this file (`H264/Alloc.lean`) bounds everything the model builds or
+  keeps by the input it was built from or by a constant: decoded RBSP ≤ payload, SEI scratch request ≤ 255·input, SEI
+  payload + rest ≤ input, parameter-set tables ≤ 32 / 256 slots, SPS lists ≤ 255 / 32 / 6 + 6 (the `with_capacity`
+  requests), PPS slice-group ids ≤ input bits, slice-header operation lists ≤ consumed bits. Capacity doubling, the real
+  allocator and wall-clock time are runtime behaviour: *measured* on the implementation by the harness (counting
+  allocator, call counts; see DESIGN.md, C03) — that part of the claim is labelled partial. -/
 namespace C03
 open Bits
 
@@ -154,5 +158,46 @@ theorem reachable_context_widths (ops : List History.Op) (i : Nat) (v : Sps.Sps)
     (h : Ctx.get (History.run ops).sps i = some v) :
     v.spsId = i ∧ i ≤ 31 ∧ v.log2MaxFrameNumMinus4 + 4 ≤ 16 ∧ v.picWidthInMbsMinus1 + 1 < 2^32 ∧
     v.picHeightInMapUnitsMinus1 + 1 < 2^32 := History.reachable_sps_widths ops i v h
+
+/-! ### size ledger: nothing the parsers build or keep is larger than a fixed multiple of the input -/
+
+/-- `decode_nal` never returns more bytes than the payload it was given -/
+theorem decoded_rbsp_not_longer_than_payload (nal : List UInt8) (b : Bool) (out : List UInt8)
+    (h : Rbsp.decodeNal nal = .ok (b, out)) : out.length ≤ nal.length - 1 := Alloc.decodeNal_length_le nal b out h
+/-- un-escaping from any scanner state never produces more than it consumed (streaming reader) -/
+theorem unescaped_not_longer (st : Rbsp.PS) (xs : List UInt8) : (Rbsp.unescFrom st xs).1.length ≤ xs.length :=
+  Alloc.unescFrom_length_le st xs
+/-- the SEI scratch buffer is resized to `payload_size` before the payload is known to be present: that request is at
+most 255 bytes per input byte -/
+theorem sei_scratch_request_bounded (name : String) (fin : IoKind) (bs : List UInt8) (len : Nat) (rest : List UInt8)
+    (h : Sei.readU32 name fin bs 0 = .ok (len, rest)) : len ≤ 255 * bs.length := Alloc.scratch_request_le name fin bs len rest h
+/-- a delivered message and what is left to read fit into what was there -/
+theorem sei_message_within_input (r r' : Sei.Reader) (ty : Nat) (pl : List UInt8)
+    (h : Sei.next r = (r', .ok (some (ty, pl)))) : pl.length + r'.src.bytes.length + 2 ≤ r.src.bytes.length :=
+  Alloc.next_payload_le r r' ty pl h
+/-- parameter-set tables: never more than `B` slots after any insertions under checked ids (`B` = 32 / 256) -/
+theorem param_set_table_bounded {α} (B : Nat) (ws : List (Nat × α)) (m : Ctx.PMap α) (hm : m.length ≤ B)
+    (h : ∀ w ∈ ws, w.1 < B) : (ws.foldl (fun m w => Ctx.put m w.1 w.2) m).length ≤ B := Alloc.table_length_le B ws m hm h
+/-- SPS: all lists bounded by the constants that are requested as capacities -/
+theorem sps_lists_bounded (s s' : Src) (v : Sps.Sps) (h : Sps.parseSps s = .ok (v, s')) :
+    (∀ f a b offs, v.picOrderCnt = .typeOne f a b offs → offs.length ≤ 255) ∧
+    (∀ u hrd, v.vui = some u → (u.nalHrd = some hrd ∨ u.vclHrd = some hrd) → hrd.cpbSpecs.length ≤ 32) ∧
+    (∀ m, v.chromaInfo.scalingMatrix = some m → m.l4x4.length = 6 ∧ m.l8x8.length ≤ 6) := Alloc.sps_cells_const s s' v h
+/-- PPS: run lengths ≤ 8, rectangles ≤ 7, explicit slice-group ids at most one per input bit -/
+theorem pps_lists_bounded (spsById : Nat → Option Sps.Sps) (s s' : Src) (v : Pps.Pps)
+    (h : Pps.parsePps spsById s = .ok (v, s')) :
+    Alloc.sliceGroupCells v.sliceGroups ≤ s.bits.length + 8 ∧
+    (∀ rl, v.sliceGroups = some (.interleaved rl) → rl.length ≤ 8) ∧
+    (∀ rs, v.sliceGroups = some (.foregroundAndLeftover rs) → rs.length ≤ 7) ∧
+    (∀ n ids, v.sliceGroups = some (.explicitAssignment n ids) → ids.length ≤ s.bits.length) :=
+  Alloc.pps_cells_le spsById s s' v h
+/-- slice header, in every reachable context: list-modification operations + MMCOs ≤ header bits consumed -/
+theorem slice_lists_bounded (ops : List History.Op) (hdr : Slice.NalHdr) (s s' : Src) (h : Slice.SliceHeader)
+    (sid pid : Nat)
+    (hok : Slice.parseSliceHeader (History.sctx (History.run ops)) hdr s = .ok ((h, sid, pid), s')) :
+    Alloc.modCells h.refPicListModification + Alloc.markCells h.decRefPicMarking + s'.bits.length ≤ s.bits.length :=
+  Alloc.slice_cells_le_reachable ops hdr s s' h sid pid hok
+/-- not vacuous: an explicit map with 3 ids in 2 groups costs 3 bits -/
+example : Alloc.sliceGroupCells (some (.explicitAssignment 1 [0, 1, 0])) = 3 := by decide
 
 end C03
